@@ -30,9 +30,12 @@ extern int mpt_command_set(_MPT_UARRAY_TYPE(command) *arr, uintptr_t id, int (*c
 	
 	/* replace/delete command */
 	if ((dest = mpt_command_get(arr, id))) {
-		dest->cmd(dest->arg, 0);
+		int (*old)(void *, void *) = dest->cmd;
+		void *ctx = dest->arg;
+		/* replace first: the notification may look up or remove commands itself */
 		dest->cmd = cmd;
 		dest->arg = arg;
+		old(ctx, 0);
 		return cmd ? 0 : 2;
 	}
 	if (!(buf = arr->_buf)) {
